@@ -8,8 +8,11 @@ import itertools
 
 from sa import source
 from sa.cfg import cfg_of, guards
+from sa.classes import is_logging_stmt
 from sa.exc import Hierarchy, handler_type_names
-from sa.source import AnchorMissing, dotted, last_attr, local_defs, short, u, walk_body
+from sa.minieval import CannotEval, Record, ev as mev
+from sa.pat import fact_nodes
+from sa.source import AnchorMissing, dotted, last_attr, local_defs, params_of, short, u, walk_body
 from sa.sym import UnknownAtom, parse_expr, rat_equal
 from sa.tables import Unsupported, decide
 
@@ -34,6 +37,17 @@ RAISED = [
 
 def is_sleep(e):
     return isinstance(e, ast.Await) and isinstance(e.value, ast.Call) and dotted(e.value.func) == "asyncio.sleep"
+
+
+def value_atom(env):
+    """atom function for tables.decide: a test (or any operand of its and/or/not structure) is EVALUATED on the representative values in `env` (local name -> value); orientation of
+    comparisons, operand order and polarity are therefore irrelevant. An operand that cannot be evaluated is not an atom (decide then raises UnknownAtom: inconclusive)."""
+    def atom(n, _env):
+        try:
+            return bool(mev(n, dict(env)))
+        except CannotEval:
+            return None
+    return atom
 
 
 def run(chk):
@@ -65,6 +79,42 @@ def run(chk):
     for n in walk_body(call):
         if isinstance(n, ast.Assign) and len(n.targets) == 1 and isinstance(n.targets[0], ast.Name):
             defs.setdefault(n.targets[0].id, []).append(n)
+    # roles by data flow: the parameter dict is the last parameter of __call__(self, es, params); a local's role is the documented key it is read from
+    pnames = params_of(call)
+    if len(pnames) < 3:
+        raise AnchorMissing("Retry.__call__(self, es, params): the parameter dict")
+    pv = pnames[-1]
+
+    def param_key(e):
+        """K if e is `params.get(K[, default])`"""
+        if isinstance(e, ast.Call) and isinstance(e.func, ast.Attribute) and e.func.attr == "get" and isinstance(e.func.value, ast.Name) and e.func.value.id == pv and e.args \
+                and isinstance(e.args[0], ast.Constant) and isinstance(e.args[0].value, str):
+            return e.args[0].value
+        return None
+
+    role = {}  # documented key -> the local that carries the value read under that key
+    for nm, ds in defs.items():
+        for d in ds:
+            for x in ast.walk(d.value):
+                k = param_key(x)
+                if k is not None:
+                    role.setdefault(k, nm)
+    rusv, roev, rotv, sleepv = role.get("retry-until-success"), role.get("retry-on-error"), role.get("retry-on-timeout"), role.get("retry-wait-period")
+
+    def attempt_env(last):
+        """representative values for one attempt: the last-attempt flag and (for tests that recompute it) the attempt counter and the bound"""
+        env = {lastv: last}
+        if av and mv and av != mv:
+            env.update({av: 2 if last else 0, mv: 3})
+        return env
+
+    def carries(e, key, var):
+        """e is the local carrying the value of `key`, or reads it directly"""
+        return (isinstance(e, ast.Name) and var is not None and e.id == var) or param_key(e) == key
+
+    def under_rus(n):
+        """some guard fact of n (polarity-insensitive view of the enclosing tests) is the retry-until-success value itself"""
+        return any(carries(f, "retry-until-success", rusv) or (isinstance(f, ast.Attribute) and f.attr == "retry_until_success") for f in fact_nodes(n, stop=call))
 
     # ---- O16.1 attempt bound ----------------------------------------------------------------------------------------------------------------
     chk.rule("O16.1", "loop is range(max_attempts); max_attempts == retries + 1 (unbounded with retry-on-error forced under retry-until-success); "
@@ -79,15 +129,15 @@ def run(chk):
     unb = [d for d in mdefs if dotted(d.value) == "sys.maxsize"]
     ok = len(bounded) == 1 and rat_equal(bounded[0].value, parse_expr("params.get('retries', 0) + 1"))
     chk.ob("O16.1", "max_attempts == retries + 1 (default 0 retries)", ok, bounded[0] if bounded else call, short(bounded[0], 70) if bounded else "")
-    ok = len(unb) == 1 and any(pol and "retry_until_success" in u(t) for t, pol in guards(unb[0]))
+    ok = len(unb) == 1 and under_rus(unb[0])
     chk.ob("O16.1", "unbounded only under retry-until-success", ok, unb[0] if unb else call, "")
-    roe = defs.get("retry_on_error", [])
+    roe = defs.get(roev, []) if roev else []
     forced = [d for d in roe if source.is_const(d.value, True)]
-    ok = len(forced) == 1 and bool(unb) and guards(forced[0]) and guards(unb[0]) and guards(forced[0])[0][0] is guards(unb[0])[0][0] and guards(forced[0])[0][1] == guards(unb[0])[0][1]
+    ok = len(forced) == 1 and bool(unb) and (under_rus(forced[0]) or (guards(forced[0]) and guards(unb[0]) and guards(forced[0])[0][0] is guards(unb[0])[0][0] and guards(forced[0])[0][1] == guards(unb[0])[0][1]))
     chk.ob("O16.1", "retry-on-error forced under retry-until-success", bool(ok), forced[0] if forced else call, "")
-    for var, key, dflt in (("retry_on_error", "retry-on-error", False), ("sleep_time", "retry-wait-period", 0.5), ("retry_on_timeout", "retry-on-timeout", True)):
-        ds = [d for d in defs.get(var, []) if isinstance(d.value, ast.Call) and last_attr(d.value.func) == "get"]
-        ok = len(ds) == 1 and source.is_const(ds[0].value.args[0], key) and len(ds[0].value.args) == 2 and isinstance(ds[0].value.args[1], ast.Constant) and ds[0].value.args[1].value == dflt \
+    for key, dflt in (("retry-on-error", False), ("retry-wait-period", 0.5), ("retry-on-timeout", True)):
+        ds = [d for d in defs.get(role.get(key), []) if isinstance(d.value, ast.Call) and last_attr(d.value.func) == "get"]
+        ok = len(ds) == 1 and param_key(ds[0].value) == key and len(ds[0].value.args) == 2 and isinstance(ds[0].value.args[1], ast.Constant) and ds[0].value.args[1].value == dflt \
             and type(ds[0].value.args[1].value) is type(dflt)
         chk.ob("O16.1", f"{key} read with default {dflt}", ok, ds[0] if ds else call, short(ds[0], 70) if ds else "")
     la = [n for n in L.body if isinstance(n, ast.Assign) and isinstance(n.targets[0], ast.Name)]
@@ -153,19 +203,8 @@ def run(chk):
                 got, sleeps = "raise", []
                 detail = "no handler matches: propagates"
             else:
-                ev = h.name
-
-                def atom(n, env, ev=ev):
-                    t = u(n)
-                    if t == lastv:
-                        return last
-                    if t == "retry_on_timeout":
-                        return rot
-                    if ev and t in (f"{ev}.status_code == 408", f"408 == {ev}.status_code"):
-                        return status == 408
-                    if ev and t in (f"{ev}.status_code != 408",):
-                        return status != 408
-                    return None
+                # the tests of the selected handler are evaluated on representative values: the last-attempt flag, the retry-on-timeout value and the caught exception's status code
+                atom = value_atom({**attempt_env(last), **({rotv: rot} if rotv else {}), **({h.name: Record(status_code=status)} if h.name else {})})
 
                 try:
                     out = decide(h.body, atom, {})
@@ -176,31 +215,22 @@ def run(chk):
                 detail = f"selected handler `except {', '.join(names)}` -> {out.text()}"
             chk.ob("O16.2", inst, got == want, h if h is not None else T, f"{detail}; expected {want}", key=f"{_R}:Retry.__call__:{label}|{last}|{rot}")
             if got == "retry":
-                ok = len(sleeps) == 1 and u(sleeps[0].value.args[0]) == "sleep_time"
-                chk.ob("O16.3", f"sleep before retrying after {label}", ok, h, "awaits sleep(sleep_time)" if ok else "retries without awaiting the retry-wait-period", key=f"{_R}:Retry.__call__:sleep:{label}|{last}|{rot}")
+                ok = len(sleeps) == 1 and bool(sleeps[0].value.args) and carries(sleeps[0].value.args[0], "retry-wait-period", sleepv)
+                chk.ob("O16.3", f"sleep before retrying after {label}", ok, h, "awaits sleep(<retry-wait-period>)" if ok else "retries without awaiting the retry-wait-period", key=f"{_R}:Retry.__call__:sleep:{label}|{last}|{rot}")
     # return outcomes
-    body = list(T.body)
+    body = [s_ for s_ in T.body if not is_logging_stmt(s_)]
     rv = None
     if body and isinstance(body[0], ast.Assign) and isinstance(body[0].value, ast.Await) and dcalls and body[0].value.value is dcalls[0] and isinstance(body[0].targets[0], ast.Name):
         rv = body[0].targets[0].id
     if rv is None:
         raise AnchorMissing("`return_value = await self.delegate(...)` as first statement of the try")
-    RET = [("dict success=True", True, True), ("dict success=False", True, False), ("non-dict result", False, True)]
-    for label, isdict, success in RET:
+    # representative results of the delegate: (label, value, is dict, success)
+    RET = [("dict success=True", {"success": True, "weight": 1}, True, True), ("dict success=False", {"success": False, "weight": 1}, True, False), ("non-dict result", (1, "ops"), False, True),
+           ("None result", None, False, True), ("empty dict (no 'success' key)", {}, True, True)]
+    for label, value, isdict, success in RET:
         for last, roe_ in itertools.product([False, True], repeat=2):
-            def atom(n, env):
-                t = u(n)
-                if t == lastv:
-                    return last
-                if t == "retry_on_error":
-                    return roe_
-                if t == f"isinstance({rv}, dict)":
-                    return isdict
-                if t in (f"{rv}.get('success', True)", f"{rv}['success']"):
-                    return success
-                if t in (f"not {rv}.get('success', True)",):
-                    return not success
-                return None
+            # the result handling is evaluated on the representative result, the last-attempt flag and the retry-on-error value
+            atom = value_atom({**attempt_env(last), rv: value, **({roev: roe_} if roev else {})})
 
             try:
                 out = decide(body[1:] + list(T.orelse), atom, {})
@@ -212,7 +242,7 @@ def run(chk):
             ok = got == want and (got != "return" or (out.value is not None and u(out.value) == rv))
             chk.ob("O16.2", f"{label} | last={last} retry-on-error={roe_}", ok, T, f"{out.text()}; expected {want}" + (f" {rv}" if want == "return" else ""), key=f"{_R}:Retry.__call__:{label}|{last}|{roe_}")
             if got == "retry":
-                ok = len(sleeps) == 1 and u(sleeps[0].value.args[0]) == "sleep_time"
+                ok = len(sleeps) == 1 and bool(sleeps[0].value.args) and carries(sleeps[0].value.args[0], "retry-wait-period", sleepv)
                 chk.ob("O16.3", f"sleep before retrying after {label}", ok, T, "" if ok else "retries without awaiting the retry-wait-period", key=f"{_R}:Retry.__call__:sleep:{label}|{last}|{roe_}")
     # missing 'success' key defaults to success
     gets = [n for n in ast.walk(T) if isinstance(n, ast.Call) and u(n.func) == f"{rv}.get" and n.args and source.is_const(n.args[0], "success")]
@@ -231,19 +261,7 @@ def run(chk):
     def table_of(h):
         rows = []
         for last, rot, is408 in itertools.product([False, True], repeat=3):
-            ev = h.name
-
-            def atom(n, env):
-                t = u(n)
-                if t == lastv:
-                    return last
-                if t == "retry_on_timeout":
-                    return rot
-                if ev and t in (f"{ev}.status_code == 408",):
-                    return is408
-                if ev and t in (f"{ev}.status_code != 408",):
-                    return not is408
-                return None
+            atom = value_atom({**attempt_env(last), **({rotv: rot} if rotv else {}), **({h.name: Record(status_code=408 if is408 else 500)} if h.name else {})})
 
             try:
                 rows.append(classify_outcome(decide(h.body, atom, {}))[0])
